@@ -78,6 +78,19 @@ def failed_rule(ctx):
             me = [(bb, t) for bb, t in b.calls() if cname(t).endswith('Result::<T, E>::map_err') and any(c is atm for c in origin(b, t['args'][0]).calls + [x for x in [None]]) or
                   (cname(t).endswith('Result::<T, E>::map_err') and op_place(t['args'][0]) and op_place(t['args'][0])['l'] == atm['dest']['l'])]
             trunc_ok = False
+            if not me and lens:
+                # the same thing spelled `if let Err(e) = attempt { truncate(saved); return Err(e) }`
+                te_ = try_edges(b, abb)
+                if te_ is not None and te_[1] is not None and all_paths_err(b, te_[1]):
+                    errb = b.reachable_from(te_[1])
+                    trs = [(xb, b.term(xb)) for xb in sorted(errb) if b.term(xb)['k'] == 'call' and call_matches(b.term(xb), ['Vec::<T, A>::truncate'])]
+                    if len(trs) == 1:
+                        to = origin(b, trs[0][1]['args'][1])
+                        bo = origin(b, trs[0][1]['args'][0])
+                        same_len = any(c is lens[-1][1] for c in to.calls) and not to.has_arith() and not to.consts()
+                        on_buf = any(strip_generics(cname(c)).endswith('SerializerState::writer_mut') for c in bo.calls)
+                        rets_ = [x for x in errb if b.term(x)['k'] == 'return']
+                        trunc_ok = same_len and on_buf and must_pass(b, te_[1], rets_, [trs[0][0]])
             if len(me) >= 1 and lens:
                 co = origin(b, me[0][1]['args'][1])
                 for a in co.atoms:
